@@ -19,6 +19,7 @@ using C = cappuccino::lru_cache<uint64_t, uint64_t, cappuccino::thread_safe::TS>
 #endif
 #define T_TTL 0
 #define T_PEEK 1
+#define T_PEEK_KIND 1
 #define T_CAPPED 1
 #define T_PURGE 0
 #define T_HAS_CLEAN 0
